@@ -2,6 +2,9 @@
 
    template := role                                  (the root, an aggregator)
    role     := (A hdr role*) | (T hdr (field*) crit) | (C hdr (field*) crit) | (I range var role)
+             | (N hdr field doc*)      include role: header at the include site, `include:` expression, the
+                                       documents of the workflow repository this site can name (distinct files)
+   doc      := (D file hdr role*)      one workflow document: file name, root role
    hdr      := (name enabled ((k field)*) ((k field)*) ((k v)*) ((k field)*) ((k field)*) ((k field)*))
                  name enabled defaults     vars         uvars    constraints  binds        connects
    field    := (part*)     part := (t text) | (s se) | (b be)
@@ -74,10 +77,21 @@ partial def parseRole (s : SExp) (next : Tmpl) : Option Tmpl :=
   | .list [.atom "T", h, .list xs, c] => do pure (.task (← parseHdr h) (← xs.mapM? parseField) (← c.bool?) next)
   | .list [.atom "C", h, .list xs, c] => do pure (.call (← parseHdr h) (← xs.mapM? parseField) (← c.bool?) next)
   | .list [.atom "I", r, .atom v, b] => do pure (.iter (← parseRange r) v (← parseRole b .nil) next)
+  | .list (.atom "N" :: h :: inc :: docs) => do
+    let files := docs.filterMap fun
+      | .list (.atom "D" :: .atom f :: _) => some f
+      | _ => none
+    if files.length != docs.length || files.eraseDups.length != files.length then none
+    pure (.incl (← parseHdr h) (← parseField inc) (← parseDocs docs) next)
   | _ => none
 partial def parseRoles : List SExp → Option Tmpl
   | [] => some .nil
   | r :: rest => do parseRole r (← parseRoles rest)
+partial def parseDocs : List SExp → Option Tmpl
+  | [] => some .nil
+  | .list (.atom "D" :: .atom f :: h :: kids) :: rest => do
+    pure (.doc f (← parseHdr h) (← parseRoles kids) (← parseDocs rest))
+  | _ => none
 end
 
 /-- Canonical form of a Go map: first binding per key, sorted by key. -/
